@@ -512,6 +512,14 @@ def gen_special(rng):
         rng.shuffle(S)
         return {'part': 'truncate', 'S': S, 'stream': 'tiny',
                 'opts': {'chi_max': rng.choice([1, 2]), 'svd_min': None, 'trunc_cut': None}}
+    if k < 0.96:  # longer than the default chi_max
+        n = rng.randint(101, 130)
+        base = rng.choice([0.5, 0.75, 0.9])
+        S = [base ** (i // rng.choice([1, 2])) for i in range(n)]
+        rng.shuffle(S)
+        return {'part': 'truncate', 'S': S, 'stream': 'long',
+                'opts': rng.choice([{}, {'svd_min': None, 'trunc_cut': None}, {'chi_max': 105, 'svd_min': None},
+                                    {'chi_min': 101}])}
     return {'part': 'truncate', 'S': [], 'stream': 'empty', 'opts': {'chi_max': rng.choice([None, 1])}}
 
 
@@ -545,6 +553,11 @@ def shrink(case, sig):
                 o = dict(cur['opts'])
                 o[k] = None
                 cands.append(dict(cur, opts=o))
+        for k in ('chi_max', 'chi_min'):
+            if isinstance(cur['opts'].get(k), int) and cur['opts'][k] > 0:
+                o = dict(cur['opts'])
+                o[k] -= 1
+                cands.append(dict(cur, opts=o))
         srt = sorted(cur['S'], reverse=True)
         if srt != cur['S']:
             cands.append(dict(cur, S=srt))
@@ -568,7 +581,7 @@ def nontrivial(case, impl):
 
 def histogram(res, case, impl, info):
     n = len(case['S'])
-    res.count(f'trunc.n={n}')
+    res.count('trunc.n=%s' % (n if n <= 12 else '>100'))
     for k in ORDER:
         v = case['opts'].get(k, ABSENT)
         res.count(f'trunc.{k}=' + ('absent' if v == ABSENT else 'None' if v is None else 'set'))
@@ -610,17 +623,22 @@ def run_cases(ctx, cases, use_model=True):
                 lines.append(model_line(c, nd))
                 where.append(idx)
     outs = core.run_driver('C15', lines) if lines else []
-    per = {}
+    per, seen = {}, {}
     for idx, o in zip(where, outs):
         per.setdefault(idx, []).append(o)
     for idx, (c, impl, (sig, detail, info)) in enumerate(zip(cases, impls, verdicts)):
         res.note_case(c, nontrivial(c, impl))
         histogram(res, c, impl, info)
         if sig:
-            small = shrink(c, sig)
-            sig2, det2, _ = oracle(small, run_impl(small))
-            small['original'] = {k: v for k, v in c.items()}
-            res.fail('property', sig2 or sig, det2 or detail, small)
+            seen[sig] = seen.get(sig, 0) + 1
+            res.count('trunc.fail.' + sig)
+            if seen[sig] <= 2:  # shrink the first ones of each kind, keep a few more as they are
+                small = shrink(c, sig)
+                sig2, det2, _ = oracle(small, run_impl(small))
+                small['original'] = {k: v for k, v in c.items()}
+                res.fail('property', sig2 or sig, det2 or detail, small)
+            elif seen[sig] <= 10:
+                res.fail('property', sig, detail, c)
             continue
         if idx in per:
             res.traces_validated += 1
@@ -672,17 +690,38 @@ def gen_cases(rng, n):
     return out
 
 
-def run(ctx):
-    rng = ctx.sub_rng('truncate')
-    n = 12000 if ctx.quick else 300000
+def _chunk(args):
+    """one worker: its own PRNG (seed, chunk index), its own Lean driver process"""
+    prop, tier, seed, tag, n, use_model = args
+    core.use_repo()
+    ctx = core.Ctx(prop, tier, seed, 0)
+    rng = ctx.sub_rng(tag)
+    return run_cases(ctx, gen_cases(rng, n), use_model=use_model)
+
+
+def run_parallel(ctx, tag, n_chunks, chunk, use_model=True):
+    import multiprocessing as mp
     res = core.Result()
-    cases = load_corpus() + gen_cases(rng, n)
-    for i in range(0, len(cases), 50000):
-        res.merge(run_cases(ctx, cases[i:i + 50000]))
+    jobs = [(ctx.prop, ctx.tier, ctx.seed, f'{tag}:{i}', chunk, use_model) for i in range(n_chunks)]
+    with mp.get_context('fork').Pool(min(16, mp.cpu_count() or 1)) as pool:
+        for r in pool.imap(_chunk, jobs):
+            res.merge(r)
+    return res
+
+
+def run(ctx):
+    res = run_cases(ctx, load_corpus())
+    if ctx.quick:
+        res.merge(run_cases(ctx, gen_cases(ctx.sub_rng('truncate'), 30000)))
+    else:
+        res.merge(run_parallel(ctx, 'truncate', 40, 25000))
     return res
 
 
 def search(ctx):
-    rng = ctx.sub_rng('truncate-search')
-    cases = load_corpus() + gen_cases(rng, 30000 if ctx.quick else 400000)
-    return run_cases(ctx, cases, use_model=False)
+    res = run_cases(ctx, load_corpus(), use_model=False)
+    if ctx.quick:
+        res.merge(run_cases(ctx, gen_cases(ctx.sub_rng('truncate-search'), 30000), use_model=False))
+    else:
+        res.merge(run_parallel(ctx, 'truncate-search', 32, 25000, use_model=False))
+    return res
